@@ -295,6 +295,11 @@ def invalid_cases(tier):
         for v in (0, 1, 2, 3, 4):
             for rexc in (False, True):
                 out.append({"kind": kind, "variant": v, "raise_exception": rexc})
+    # r6c15A: only one of several dataset groups names an unknown residual function (the valid group declared first / last)
+    for v in (0, 1, 2, 3, 4):
+        for bad_first in (False, True):
+            for rexc in (False, True):
+                out.append({"kind": "unknown_residual_function_one_group_of_two", "variant": v, "bad_first": bad_first, "raise_exception": rexc})
     return out
 
 
@@ -312,6 +317,17 @@ def prop_invalid(c):
     expected = None
     if c["kind"] == "unknown_residual_function":
         case["groups"]["default"]["residual_function"] = "least_absolute_deviation"
+        expected = UnsupportedResidualFunctionError
+    if c["kind"] == "unknown_residual_function_one_group_of_two":
+        extra = dict(case["datasets"][0], label="dsZ", group="gz", global_axis=[0.0, 1.5, 2.5], data_seed=5)
+        case["datasets"].append(extra)
+        good = dict(case["groups"]["default"])
+        bad = {"residual_function": "least_absolute_deviation", "link_clp": None}
+        # which of the two groups is the bad one, and the declaration order of the groups
+        if c["bad_first"]:
+            case["groups"] = {"default": bad, "gz": good}
+        else:
+            case["groups"] = {"default": good, "gz": bad}
         expected = UnsupportedResidualFunctionError
     model, params, data = schemes.build(case)
     if c["kind"] == "missing_data":
